@@ -11,7 +11,7 @@ TICK = 64.0
 
 def mk(t):
     d = {'amount': t['a'] / TICK, 'merchant': t['m'], 'category': t['c'], 'subcategory': t['s'],
-         'date': datetime.strptime(t['d'], '%Y-%m-%d'), 'source': 'S', 'description': t['m'].upper()}
+         'date': datetime.strptime(t['d'], '%Y-%m-%d'), 'source': t.get('src', 'S'), 'description': t['m'].upper()}
     if t['tags'] is not None:
         d['tags'] = list(t['tags'])
     return d
